@@ -99,6 +99,8 @@ class RuleAnalysis(Analysis):
 
 
 def is_name(e: ast.AST | None, name: str) -> bool:
+    if "." in name:
+        return isinstance(e, ast.Attribute) and dotted(e) == name  # a field of a local record (`race.winner`)
     return isinstance(e, ast.Name) and e.id == name
 
 
